@@ -82,6 +82,13 @@ def cases(seed, tier):
         hs[-1] = ([["record", "v", "c0"]] + hs[-1]) if mod == "cell" else hs[-1]
         for i in range(0, len(hs), 6):
             out.append({"module": mod, "histories": hs[i:i + 6], "kind": "simulate_then_edit"})
+    # references to a channel that is deleted afterwards (F28) and partial deletion of shared trainables through a view (F29)
+    for mod in ("cell", "net"):
+        hs = [[["record", "HH_m", "c0"], ["delete_channel", "HH", "b0"]], [["clamp", "HH_m", "c0"], ["delete_channel", "HH", "b0"]],
+              [["make_trainable", "HH_gNa", "c0"], ["delete_channel", "HH", "b0"]], [["record", "i_HH", "c0"], ["delete_channel", "HH", "c0"], ["delete_channel", "HH", "b0"]],
+              [["make_trainable", "radius", "all"], ["delete_trainables", "", "last"]], [["insert", "K", "all"], ["make_trainable", "eK", "all"], ["make_trainable", "K_gK", "b0"], ["delete_trainables", "", "b2"]],
+              [["make_trainable", "radius", "b0"], ["make_trainable", "v", "all"], ["delete_trainables", "", "c0"], ["delete_trainables", "", "last"]]]
+        out.append({"module": mod, "histories": hs, "kind": "dangling"})
     nrand = 48 if tier == "quick" else 500
     for k in range(nrand):
         rng = trees.rng_for(seed, PID, k)
@@ -545,19 +552,34 @@ def run_history(rec, modname, hist, kind):
     try:
         for var in ("joint", "post_only"):
             ref = refsim.run(model, nsteps, 0.025, "bwd_euler", var)
-            devs[var] = float(np.nanmax(np.abs(out - ref) / (1 + np.abs(ref)))) if ref.shape == out.shape else float("inf")
+            if ref.shape == out.shape:
+                fin = np.isfinite(out) & np.isfinite(ref)
+                devs[var] = float(np.max(np.abs(out - ref)[fin] / (1 + np.abs(ref[fin])))) if fin.any() else 0.0
+                n_finite = int(fin.sum())
+            else:
+                devs[var] = float("inf")
             nan_mismatch = not np.array_equal(np.isnan(out), np.isnan(ref)) if ref.shape == out.shape else True
     except Exception as e:  # noqa: BLE001 - the reference cannot interpret the tables: not a verdict
         rec.skipped("refsim_equiv", f"reference simulator could not interpret the tables: {type(e).__name__}: {str(e)[:80]}")
         return
     best = min(devs.values())
+    if ref.shape == out.shape and n_finite == 0 and not nan_mismatch:
+        rec.skipped("refsim_equiv", "every recorded value is NaN in both (states of channels that are absent where they are recorded)")
+        return
     j = None
     rec.check("refsim_equiv", best <= 1e-6 and not nan_mismatch, what="integrate differs from the reference simulation of the displayed tables",
               deviations=devs, nan_mismatch=bool(nan_mismatch), recordings=model["recordings"][:8], **tag)
 
 
 def run_case(case, rec):
-    for h in case["histories"]:
+    for n, h in enumerate(case["histories"]):
+        if n and n % 6 == 0:
+            # every history compiles its own programs: bound the JIT code memory of the worker (thorough tier: 'LLVM ERROR: Unable
+            # to allocate section memory' after a few hundred executables)
+            import gc
+            import jax
+            jax.clear_caches()
+            gc.collect()
         run_history(rec, case["module"], h, case["kind"])
         rec.sig(f"{case['module']}|" + ">".join(f"{o[0]}:{o[1]}@{o[2]}" for o in h))
 
@@ -576,6 +598,19 @@ def classify(case, v):
     # F10: delete_channel NaNs / drops columns (and the current name) that a remaining channel shares with the deleted one
     shared = {"K": ["eK", "vt", "i_K"], "Km": ["eK", "i_K"], "Na": ["vt", "eNa"], "CaL": ["eCa", "i_Ca"], "CaT": ["eCa", "i_Ca"]}
     dels = [o[1] for o in hist if o[0] == "delete_channel"]
+    # F28: delete_channel leaves recordings / clamps / trainables of the deleted channel behind. Precondition: the violation is
+    # reported AT a delete_channel operation; prediction: only I3/I4/I6, and every message names something the deleted channel owns
+    op = d.get("op") or []
+    if v["monitor"] == "R6" and op and op[0] == "delete_channel" and set(d.get("invariants") or []) <= {"I3", "I4", "I6"} and d.get("messages"):
+        import re
+        ch = op[1]
+        own = lambda tok: tok.startswith(ch + "_") or tok == "i_" + ch or tok in shared.get(ch, [])
+        named = []
+        for msg in d["messages"]:
+            m2 = re.search(r"(?:unknown state|trainable) (\S+)", msg)
+            named.append(m2.group(1) if m2 else None)
+        if all(t is not None and own(t) for t in named):
+            return "F28"
     if v["monitor"] in ("R6", "undo", "refsim_equiv") and dels:
         for c in dels:
             if any(s in msgs for s in shared.get(c, [])):
